@@ -1,6 +1,7 @@
 package stdlib
 
 import (
+	"math"
 	. "rare/pkg/expressions" //lint:ignore ST1001 Legacy
 	"strconv"
 )
@@ -98,6 +99,10 @@ func unaryArithmaticHelperfi(op func(float64) int64) KeyBuilderFunction {
 				return ErrorNum
 			}
 
+			if val >= math.MaxInt64 || val <= math.MinInt64 {
+				// does not fit int64; a float64 this large is already integral
+				return strconv.FormatFloat(val, 'f', 0, 64)
+			}
 			return strconv.FormatInt(op(val), 10)
 		}, nil
 	}
